@@ -1133,6 +1133,9 @@ func (e *Engine) convert(st *State, x Val, from, to types.Type, pos token.Pos) V
 		t := st.define("f2i", "Int", "(to_int "+x.T+")")
 		return Val{K: KInt, T: t, Ty: to}
 	case fk == KSlice && tk == KStr:
+		if x.Len == "0" {
+			return Val{K: KStr, T: "str_empty", Ty: to}
+		}
 		t := st.define("s", "Str", "(str_of "+st.heap("Hy")+" "+x.Base+" "+x.Off+" "+x.Len+")")
 		return Val{K: KStr, T: t, Ty: to}
 	case fk == KStr && tk == KSlice:
@@ -1142,6 +1145,8 @@ func (e *Engine) convert(st *State, x Val, from, to types.Type, pos token.Pos) V
 		q := e.fresh("qi")
 		h := st.heap("Hy")
 		st.assume("(forall ((" + q + " Int)) (! (=> (and (<= 0 " + q + ") (< " + q + " (slen " + x.T + "))) (= (select " + h + " (elem " + addr + " " + q + ")) (sat " + x.T + " " + q + "))) :pattern ((select " + h + " (elem " + addr + " " + q + ")))))")
+		// the bytes of the new slice spell the string
+		st.assume("(= (str_of " + h + " " + addr + " 0 (slen " + x.T + ")) " + x.T + ")")
 		return Val{K: KSlice, Base: addr, Off: "0", Len: "(slen " + x.T + ")", Cap: "(slen " + x.T + ")", Ty: to, Root: root, NonNil: true}
 	case fk == KInt && tk == KStr:
 		return Val{K: KStr, T: "(str_of_int " + x.T + ")", Ty: to}
